@@ -86,7 +86,6 @@ def provenance(task, cid):
     me.RUNLOG.append((str(task.get_config().namespace), task.slugname, task.name_for_persistence))
     if task.slugname in me.FAIL:
         raise RuntimeError(f'run of {task.slugname} fails on purpose')
-    task.logger.info(f'token:{task.slugname}:{len(me.RUNLOG)}')
     ps = {}
     for name, p in sorted(task.parameters.items()):
         if p.repr is not None:
@@ -94,6 +93,9 @@ def provenance(task, cid):
     ins = []
     for name, t in task.input_tasks.items():
         ins.append([name.split('::')[-1], t.value if isinstance(t, Task) else {'__default__': json_safe(t)}])
+    task.logger.info(f'token:{task.slugname}')
+    task.save_to_run_info({'inputs': len(ins)})
+    task.save_to_run_info('second')
     return {'i': ins, 'p': ps, 't': task.slugname}
 
 
@@ -325,6 +327,14 @@ def cworld(case, mod):
 
 
 # ---------- histories ----------
+def sort_keys(v):
+    if isinstance(v, dict):
+        return {k: sort_keys(v[k]) for k in sorted(v)}
+    if isinstance(v, list):
+        return [sort_keys(x) for x in v]
+    return v
+
+
 def list_store(root='data'):
     out = []
     base = Path(root)
@@ -420,6 +430,14 @@ def exec_segment(case, mod, ops, fail):
                     elif kind == 'force_chain':
                         chain.force(resolved['names'], recompute=op['recompute'], delete_data=op['delete'])
                         out = ['ok', None]
+                    elif kind == 'records':
+                        t = chain.tasks[resolved['name']]
+                        ri, lg = t.run_info, t.log
+                        if ri is not None:
+                            ri = {'config': ri.get('config'), 'input_tasks': ri.get('input_tasks', {}), 'log': ri.get('log'),
+                                  'parameters': ri.get('parameters'), 'task': ri.get('task', {}).get('name')}
+                        out = ['ok', {'records': [sort_keys(ri), None if lg is None else [l for l in lg if l.startswith('token:')]],
+                                      'raw_log': lg}]
                     elif kind == 'flags':
                         out = ['ok', {'flags': [[n, bool(t.is_forced), bool(t.has_data)] for n, t in chain.tasks.items()]}]
                     elif kind == 'has_data':
